@@ -276,7 +276,12 @@ def mutated_streams(draw, allow_valid=True):
         body = draw(st.binary(min_size=0, max_size=60))
         return (b"BBCD" + bytes([pc]) + npo.to_bytes(4, "big") + b"\x00\x00\x00\x00" + body,
                 {"base": None, "mode": mode, "ops": [pc, npo]})
-    i = draw(st.integers(0, len(corp) - 1))
+    frag = [k for k, e in enumerate(corp) if "frag" in e["name"]]
+    if mode == "unit" and frag and draw(st.booleans()):
+        # unit-level mutations matter most where units depend on each other: streams with fragmented pictures
+        i = frag[draw(st.integers(0, len(frag) - 1))]
+    else:
+        i = draw(st.integers(0, len(corp) - 1))
     entry = corp[i]
     meta = {"base": entry["name"], "mode": mode, "ops": []}
     if mode == "valid":
